@@ -407,6 +407,7 @@ class Interp:
                             self.call_func(ds[2], [dv, v, val], {})
                             return
             v.fields[name] = val
+            self.ctx.effect("setattr", (v, name))
             return
         if isinstance(v, ClassInfo):
             v.class_attr_vals[name] = val
